@@ -4,11 +4,12 @@
 LEVEL = "other"
 TRUSTED = ['exact safety oracle = reachability in the product of the graph with the subsequence matcher (cross-checked by explicit path enumeration on DAGs)']
 ASSUMPTIONS = ['A4 (not proved): graph-theoretic safety of bridge/dominator-based sequences']
-EXPLANATION = ("No unbounded contract proof was completed for this property (the safety of dominator-based sequences is a graph theorem outside the reach of the engine; the pure helper proofs planned in DESIGN.md were not built). It is decided by the BOUNDED stand-in: every sequence returned by safe_paths / safe_sequences / maximal_safe_sequences_via_dominators / compute_flow_decomp_safe_paths and every model's safe_lists, walks_to_fix and zero-fixings on all DAGs <=4 nodes and digraphs <=3 nodes x trusted sets, against an exact product-automaton oracle (rc/p_C06.py).")
+EXPLANATION = ("Proved (PyVC, unbounded): safe_paths.process_edge returns a contiguous path of edges containing e that is extended only through unique in-edges on the left and unique out-edges on the right (the structural premise of path safety). The safety of bridge/dominator-based sequences is a graph theorem outside the reach of the engine. The property is decided by the BOUNDED stand-in: every sequence returned by safe_paths / safe_sequences / maximal_safe_sequences_via_dominators / compute_flow_decomp_safe_paths and every model's safe_lists, walks_to_fix and zero-fixings on all DAGs <=4 nodes and digraphs <=3 nodes x trusted sets, against an exact product-automaton oracle (rc/p_C06.py).")
 
 
 def units(tier):
-    return []
+    from contracts import c06
+    return c06.all_units()
 
 
 def bounded(tier, seed):
@@ -22,7 +23,7 @@ def bounded(tier, seed):
 
 MANIFEST = dict(
     category="other",
-    text="Bounded stand-in only (labelled bounded): executable contracts 'safe', 'pairwise incompatible', 'zero-fix sound' evaluated on the real functions over an exhaustive small universe against an exact safety oracle.",
+    text="Contract-based proof of the structural clause of safe_paths.process_edge + bounded stand-in (labelled bounded): executable contracts 'safe', 'pairwise incompatible', 'zero-fix sound' evaluated on the real functions over an exhaustive small universe against an exact safety oracle.",
     design_ref="DESIGN.md section 3 / C06",
     note='NOT proved; no obligation is counted as discharged for this property.',
     technique='bounded runtime-contract check vs exact product-automaton safety oracle (stand-in for a contract proof)',
